@@ -1,22 +1,134 @@
 from kernels import K
 
 # ---------------------------------------------------------------- C19
+# A calculation either completes or leaves its data bases untouched: the roll-back protocol of the
+# calculators (check -> preprocess -> run -> postprocess, roll-back on failure) under symbolic
+# fault schedules.  Db is a ghost (harness/C19/ghost.h): live identifiers, role table, touched flags.
 _BASE = ['src/Calculators/ACalculator.cpp', 'src/Calculators/ACalcDbToDb.cpp', 'src/Calculators/ACalcDbVarCreator.cpp',
          'src/Basic/AException.cpp', 'src/Basic/VectorHelper.cpp', 'src/Enum/Enums.cpp']
-K('C19.p.1', property='C19', engine='symex', harness='C19/proto.cpp', entry='k_proto_dbtodb', tus=_BASE,
-  defines={'all': {'VF_NPRE': 3, 'VF_NRUN': 1, 'G_MAXID': 9}},
-  bounds={'quick': 'x'}, timeout_ms={'quick': 120000}, validate={'quick': 20},
-  what='x', out='x', assumptions=[], stubs=[])
-K('C19.p.2', property='C19', engine='symex', harness='C19/proto.cpp', entry='k_proto_varcreator', tus=_BASE,
-  defines={'all': {'VF_NPRE': 3, 'VF_NRUN': 1, 'G_MAXID': 9}},
-  bounds={'quick': 'x'}, timeout_ms={'quick': 120000}, validate={'quick': 20},
-  what='x', out='x', assumptions=[], stubs=[])
+_GHOST_STUBS = [
+    'Db::addColumnsByConstant/deleteColumnByUID/deleteColumnsByLocator/setLocatorByUID/setLocatorsByUID/setLocators/clearLocators/'
+    'getLocNumber/getLocatorNumber/getFromLocatorNumber/getUIDByLocator/getNamesByLocator/getNamesByUID/duplicateColumnByUID/'
+    'getSampleNumber/getExtensionInPlace -> ghost model (harness/C19/ghost.h): live identifier set with fresh ids never reused, '
+    'role table with the overwrite/erase semantics of Db.cpp + PtrGeos.cpp, touched flags; names are handles',
+    'GhostDb/GhostGrid (harness classes on Db/DbGrid, raw storage, vptr set by hand): isGrid, getNDim answer from the ghost',
+    'throw_exp -> throw AException() (no stream/string formatting)',
+    'NamingConvention::setNamesAndLocators (10-argument overload) -> marks the names of the designated columns written and, under two '
+    'input bits (flag_locator, cleanSameLocator), gives them the Z locator; NamingConvention::create/~NamingConvention, '
+    'AStringable::~AStringable -> raw object, no strings',
+    'ELoc::fromKey -> Z / UNKNOWN (the item map is not constructed: static constructors are not executed); the _value of the '
+    'enum items used is written by hand',
+    'strlen (solver build only) -> plain loop',
+]
+_INTERP_STUBS = [
+    'Model: getVariableNumber (overridden by mangled name), ASpaceObject::getNDim, getExternalDriftNumber, getCovaNumber, hasAnam, '
+    'isChangeSupportDefined, setField, getCovAnisoList, ACovAnisoList::isStationary -> inputs drawn up front',
+    'GhostNeigh (harness class on ANeigh): attach -> 0, getType -> MOVING or IMAGE under an input bit',
+    'migrateByLocator (the nested calculation behind ACalcDbToDb::_expandInformation) -> fails leaving its data bases alone, or '
+    'creates one column per located column with the same locator',
+    'DbHelper::centerPointToGrid -> marks the X-located columns of the point data base written, returns an input bit',
+    'VectorHelper::extensionDiagonal -> 1',
+    '__dynamic_cast (solver build only) -> the ghost output grid is a DbGrid, nothing else is',
+]
+_ASSUME = [
+    'the ghost Db stands for the real Db (C07 is the property that checks the real locator tables); a violation replayed natively '
+    'is replayed against the ghost, not against Db.cpp',
+    'the numerical _run of each calculator is replaced by a stub that may register further permanent variables and then succeeds, '
+    'returns false or throws AException (exceptions of other types, caught by the second catch clause of ACalculator::run, are not exercised)',
+    'calculator objects are raw storage with the real vptr and only the fields the stages read initialised (the constructors build std::string/NamingConvention objects)',
+    'identifier space bounded by G_MAXID per data base (vf_assume in the ghost)',
+]
+_OUT = ('values stored in the columns (the numerical _run), names as strings, exceptions thrown from inside Eigen/libstdc++, '
+        'the real Db/NamingConvention/Model code, calculators not listed')
+
+for _id, _e, _w in (('C19.p.1', 'k_proto_dbtodb', 'ACalcDbToDb::_check/_preprocess/_addVariableDb/_storeInVariableList/_cleanVariableDb/_whichDb'),
+                    ('C19.p.2', 'k_proto_varcreator', 'ACalcDbVarCreator::_addVariableDb/_storeInVariableList/_cleanVariableDb')):
+    K(_id, property='C19', engine='symex', harness='C19/proto.cpp', entry=_e, tus=_BASE,
+      defines={'quick': {'VF_NPRE': 3, 'VF_NRUN': 1, 'G_MAXID': 9}, 'thorough': {'VF_NPRE': 3, 'VF_NRUN': 2, 'G_MAXID': 15}},
+      bounds={'quick': '3 identifiers issued beforehand in each data base (any subset alive, roles X/Z/F/SIMU or none, ranks 0..1); '
+                       'each of _preprocess and _run creates 0, 1, 2 or 1+2 variables (data base and permanent/temporary status free) and '
+                       'then succeeds, returns false or throws; _check and _postprocess succeed, fail or throw; one run()',
+              'thorough': 'same, two consecutive run() on the same objects'},
+      timeout_ms={'quick': 240000, 'thorough': 1800000}, validate={'quick': 20, 'thorough': 40},
+      what='ACalculator::run (real try/catch, AException clause) + %s driven by a minimal calculator that follows the protocol '
+           '(creates through _addVariableDb, frees temporaries in _postprocess, frees both lists in _rollback): failure => both ghost data '
+           'bases exactly as before and bookkeeping lists empty; success => live identifiers == previous + registered permanent, no temporary left, '
+           'roles and contents of previous columns unchanged' % _w,
+      out=_OUT, assumptions=_ASSUME, stubs=_GHOST_STUBS)
+
 _KRIG = _BASE + ['src/Calculators/ACalcInterpolator.cpp', 'src/Estimation/CalcKriging.cpp']
-for _id, _d in (('C19.a.1', {}), ('C19.a.2', {'VF_SINGLE': 1}), ('C19.a.3', {'VF_DGM': 1}), ('C19.a.4', {'VF_FEX': 1, 'G_MAXID': 12}),
-                ('C19.a.5', {'VF_XVALID': 1}), ('C19.a.6', {'VF_NDIM': 2, 'VF_NVAR': 2, 'G_MAXID': 16})):
+_KB = ('dbin: VF_NDIM coordinates + VF_NVAR variables + 2 further columns (alive or not, role none/F/NOSTAT/V/SIMU, rank 0..1); dbout: coordinates + 2 '
+       'further columns; options flag_est/flag_std/flag_varZ free; model/neighbourhood dimension equal or one more; model with 0..1 covariances, '
+       'stationary or not; neighbourhood MOVING or IMAGE; stubbed _run creates 0, 1, 2 or 3 permanent variables then succeeds, fails or throws')
+for _id, _d, _b in (
+        ('C19.a.1', {}, 'plain kriging (kriging(), krigcell(), kribayes(), krigprof(), kriggam()): point dbout, no single target, no DGM'),
+        ('C19.a.2', {'VF_SINGLE': 1}, 'single-target mode allowed (krigtest(): _iechSingleTarget >= 0)'),
+        ('C19.a.3', {'VF_DGM': 1}, 'DGM option allowed, dbout is a grid without F/NOSTAT columns; centring may fail'),
+        ('C19.a.4', {'VF_FEX': 1, 'G_MAXID': 12}, 'dbout is a grid that may carry F/NOSTAT columns, model with 0..2 external drifts; the nested migration may fail'),
+        ('C19.a.5', {'VF_XVALID': 1}, 'cross-validation (xvalid()): dbout is dbin itself, flags est/std in {-1,0,1}, varz in {0,1}'),
+        ('C19.a.6', {'VF_NDIM': 2, 'VF_NVAR': 2, 'G_MAXID': 16}, 'plain kriging, 2 coordinates, 2 variables')):
     _dd = {'VF_NDIM': 1, 'VF_NVAR': 1, 'G_MAXID': 10}
     _dd.update(_d)
     K(_id, property='C19', engine='symex', harness='C19/kriging.cpp', entry='k_kriging', tus=_KRIG,
       defines={'all': _dd},
-      bounds={'quick': 'x'}, timeout_ms={'quick': 120000}, validate={'quick': 20},
-      what='x', out='x', assumptions=[], stubs=[])
+      bounds={'quick': '%s; VF_NDIM=%d, VF_NVAR=%d; %s' % (_b, _dd['VF_NDIM'], _dd['VF_NVAR'], _KB)},
+      timeout_ms={'quick': 240000, 'thorough': 1800000}, validate={'quick': 20, 'thorough': 40},
+      what='ACalculator::run, ACalcDbToDb::_check/_preprocess/_addVariableDb/_storeInVariableList/_cleanVariableDb/_renameVariable/'
+           '_expandInformation, ACalcInterpolator::_check/_preprocess/_centerDataToGrid, CalcKriging::_check/_preprocess/_postprocess/_rollback: '
+           'failure => dbin and dbout exactly as before (identifiers, roles, contents) and the four bookkeeping lists empty; success => dbin '
+           'unchanged, dbout = previous columns + exactly nvar columns per requested result, contents of previous columns untouched',
+      out=_OUT, assumptions=_ASSUME, stubs=_GHOST_STUBS + _INTERP_STUBS + ['CalcKriging::_run -> fault-injecting stub'])
+
+_TB = _BASE + ['src/Calculators/ACalcInterpolator.cpp', 'src/Simulation/ACalcSimulation.cpp', 'src/Simulation/CalcSimuTurningBands.cpp']
+for _id, _d, _b in (
+        ('C19.b.1', {}, 'conditional simulation (dbin and neighbourhood given), no column with the SIMU locator beforehand'),
+        ('C19.b.2', {'VF_COND': 0}, 'non-conditional simulation (dbin == nullptr), no column with the SIMU locator beforehand'),
+        ('C19.b.3', {'VF_COND': 0, 'VF_SIMUPRE': 1}, 'non-conditional simulation, dbout may already hold SIMU-located columns'),
+        ('C19.b.4', {'VF_COND': 0, 'VF_DGM': 1}, 'non-conditional simulation with the DGM option allowed (dbout a grid)'),
+        ('C19.b.5', {'VF_COND': 1, 'VF_EXPAND': 1, 'G_MAXID': 14}, 'conditional simulation, dbout a grid that may carry F/NOSTAT columns')):
+    _dd = {'VF_NDIM': 1, 'VF_NVAR': 1, 'VF_NBSIMU': 2, 'G_MAXID': 12}
+    _dd.update(_d)
+    K(_id, property='C19', engine='symex', harness='C19/tb.cpp', entry='k_simtub', tus=_TB,
+      defines={'all': _dd}, cxxflags=['-fno-delete-null-pointer-checks'],
+      bounds={'quick': '%s; 1 coordinate, 1 variable, nbsimu 0 or 2, nbtuba 0 or 100, allocation-already-done flag free; data bases as for C19.a; '
+                       'stubbed _run creates 0..3 permanent variables then succeeds, fails or throws' % _b},
+      timeout_ms={'quick': 240000, 'thorough': 1800000}, validate={'quick': 20, 'thorough': 40},
+      what='ACalculator::run, ACalcDbToDb/ACalcInterpolator stages as in C19.a, ACalcSimulation::_check/_preprocess, '
+           'CalcSimuTurningBands::_check/_preprocess/_postprocess/_rollback: same oracle as C19.a with nvar*nbsimu documented outputs; '
+           'additionally no Db member function is called through a null pointer',
+      out=_OUT, assumptions=_ASSUME, stubs=_GHOST_STUBS + _INTERP_STUBS + ['CalcSimuTurningBands::_run -> fault-injecting stub'])
+
+K('C19.c.1', property='C19', engine='symex', harness='C19/migrate.cpp', entry='k_migrate', tus=_BASE + ['src/Calculators/CalcMigrate.cpp'],
+  defines={'all': {'VF_NDIM': 1, 'VF_NVAR': 2, 'G_MAXID': 12}},
+  bounds={'quick': 'dbin: 1 coordinate + 2 variables + 2 further columns (alive or not, role none/F/SEL/V/SIMU); dbout: coordinate + 2 further columns; '
+                   'the 2 variables or none selected, dist_type 0..3, flagLocate free; stubbed _run creates 0..3 permanent variables then succeeds, fails or throws'},
+  timeout_ms={'quick': 240000, 'thorough': 1800000}, validate={'quick': 20, 'thorough': 40},
+  what='ACalculator::run, ACalcDbToDb stages, CalcMigrate::_check/_preprocess/_postprocess/_rollback: failure => both data bases exactly as before, '
+       'lists empty; success => dbin unchanged, dbout = previous columns + one column per migrated variable',
+  out=_OUT, assumptions=_ASSUME, stubs=_GHOST_STUBS + ['CalcMigrate::_run -> fault-injecting stub'])
+K('C19.d.1', property='C19', engine='symex', harness='C19/stats.cpp', entry='k_statistics', tus=_BASE + ['src/Calculators/CalcStatistics.cpp'],
+  defines={'all': {'VF_NDIM': 1, 'VF_NVAR': 2, 'G_MAXID': 12}},
+  bounds={'quick': 'data bases as for C19.c.1 (dbout not a grid); flagStats, flagRegr, dboutMustBeGrid, flagCst free; stubbed _run as for C19.c.1'},
+  timeout_ms={'quick': 240000, 'thorough': 1800000}, validate={'quick': 20, 'thorough': 40},
+  what='ACalculator::run, ACalcDbToDb stages, CalcStatistics::_check/_preprocess/_postprocess/_rollback: failure => both data bases exactly as before, '
+       'lists empty; success => previous columns kept and untouched, dbout gains nvar columns (statistics), dbin gains 1 column (regression)',
+  out=_OUT, assumptions=_ASSUME, stubs=_GHOST_STUBS + ['CalcStatistics::_run -> fault-injecting stub'])
+K('C19.e.1', property='C19', engine='symex', harness='C19/anam.cpp', entry='k_anam', tus=_BASE + ['src/Anamorphosis/CalcAnamTransform.cpp'],
+  defines={'all': {'VF_NDIM': 1, 'VF_NVAR': 1, 'VF_NFACT': 2, 'G_MAXID': 10, 'VF_CONT': 1}},
+  bounds={'quick': 'db: 1 coordinate + 1 variable + 2 further columns; transformation "variables <-> gaussian" or "variable -> 2 factors" (ranks 0..3, '
+                   'anamorphosis with 0..3 factors, given or not); stubbed _run succeeds, fails or throws'},
+  timeout_ms={'quick': 240000, 'thorough': 1800000}, validate={'quick': 20, 'thorough': 40},
+  what='ACalculator::run, ACalcDbVarCreator::_renameVariable/_cleanVariableDb, CalcAnamTransform::_check/_hasAnam/_hasVariableNumber/_preprocess/'
+       '_postprocess/_rollback: failure => the data base exactly as before, lists empty; success => previous columns kept and untouched + one '
+       'column per variable / per factor',
+  out=_OUT, assumptions=_ASSUME,
+  stubs=_GHOST_STUBS + ['CalcAnamTransform::_run -> fault-injecting stub', 'GhostAnam (harness class on AnamContinuous): HERMITIAN, getNFactor input',
+                        'EAnam::fromKey -> UNKNOWN', '__dynamic_cast (solver build only) -> the ghost anamorphosis is an AnamContinuous'])
+
+NOTES = {
+    'C19': 'findings on the current tree (each replayed natively): C19.a.2/a.3/b.1 temporaries registered with status 2 survive a failure because every '
+           '_rollback calls _cleanVariableDb(1) only (S12); C19.a.3 DGM centring leaves the X locators on the temporary copies; C19.a.4/b.5 the columns '
+           'created by _expandInformation(1, ...) are never removed; C19.b.3 _addVariableDb(..., ELoc::SIMU, 0, ...) displaces the SIMU locators of '
+           'previous columns and roll-back does not give them back; C19.b.4 null dbin dereferenced under DGM; C19.e.1 CalcAnamTransform::_preprocess '
+           'creates its outputs with Db::addColumnsByConstant directly, so roll-back cannot remove them',
+}
